@@ -22,6 +22,14 @@ func NewGen(rng *rand.Rand, exotic bool) *Gen {
 	return g
 }
 
+// Refresh replaces the suffix pool, so that names drawn from now on are first
+// written (and later pointed to) at the current, higher message offsets.
+func (g *Gen) Refresh() {
+	for i := range g.pool {
+		g.pool[i] = GenName(g.Rng, 1+g.Rng.IntN(3), 40, g.Exotic)
+	}
+}
+
 func (g *Gen) Bytes(n int) []byte {
 	b := make([]byte, n)
 	for i := range b {
